@@ -896,7 +896,7 @@ def strat_shield(draw):
 # ---------------------------------------------------------------------------
 
 SUBCHECKS = [
-    SubCheck('hand', run_hand, strategy=strat_hand, quick=1600, thorough=160000,
+    SubCheck('hand', run_hand, strategy=strat_hand, quick=1600, thorough=96000,
              rule="CNF and OPB objects built by hand: 0-4 variable groups (named singletons, 1- and 2-index blocks with the label shapes of the families, anonymous gaps), literals up to 2 past the declared range, 0..80 rows of width 0..4 (OPB: coefficients -12..12 \\ {0}, five input relations, degrees -5..30, clauses), extra header fields, description, export_header x export_varnames, one named target (path / file object / StringIO / stdout, 13 extensions, sub-directories called d.tex and d.opb, request None/opb/latex/dimacs); every case is rendered by to_opb(), to_latex(), to_file(opb), to_file(latex) and the named target, each read back by the independent readers and compared row by row with list(F) and all_variable_labels(); non-trivial: >=2 rows, >=1 row with a negative literal, and for the OPB class a coefficient >1 or an equality",
              required_labels=['CNF', 'OPB', 'equality', 'coefficient>1', 'empty-constraint', 'empty-formula', 'page-split',
                               'two-page-splits', 'full-last-page', 'varnames', 'by-extension', 'request-beats-extension',
